@@ -347,3 +347,83 @@ class ViewTranslator:
             L.append('    ::std::printf("B%d");  out(-1); out(v.Ok() ? 1 : 0); dump_T%d(v); ::std::printf("\\n"); ::std::free(buf); }' % (bi, top_index))
         L.append("  return 0; }")
         return "\n".join(L) + "\n"
+
+
+# ---------------------------------------------------------------------------
+# C04: a driver that exercises the whole checked API under sanitizers
+# ---------------------------------------------------------------------------
+def _scalar_paths(tr, t, acc, depth, out):
+    """C++ statements that try writes on every writable scalar reachable from view expression acc."""
+    for f in t.structure.field:
+        n = tr.field_cpp_name(f)
+        if ir_util.field_is_virtual(f):
+            wm = f.write_method.which_method
+            if wm == "transform" and not n.startswith("Intrinsic"):
+                out.append("try_writes_small(%s.%s());" % (acc, n))
+            continue
+        if f.name.is_anonymous and False:
+            continue
+        ty = f.type
+        if ir_util.is_array(ty):
+            base = ty.array_type.base_type
+            if ir_util.is_array(base):
+                continue
+            td = ir_util.find_object(base.atomic_type.reference, tr.ir)
+            if td.has_field("structure"):
+                if depth < 3:
+                    inner = []
+                    _scalar_paths(tr, td, "el", depth + 1, inner)
+                    out.append("{ auto arr = %s.%s(); for (::std::size_t i = 0; i < arr.ElementCount() && i < 4; ++i) { auto el = arr[i]; %s } }"
+                               % (acc, n, " ".join(inner)))
+            else:
+                out.append("{ auto arr = %s.%s(); for (::std::size_t i = 0; i < arr.ElementCount() && i < 4; ++i) { try_writes(arr[i]); } }" % (acc, n))
+            continue
+        td = ir_util.find_object(ty.atomic_type.reference, tr.ir)
+        if td.has_field("structure"):
+            if depth < 3:
+                _scalar_paths(tr, td, "%s.%s()" % (acc, n), depth + 1, out)
+        else:
+            out.append("try_writes(%s.%s());" % (acc, n))
+
+
+def safety_driver(tr, header, top_index, buffers):
+    base = tr.driver(header, top_index, [], [])
+    head = base[: base.index("int main() {")]
+    t = tr.types[top_index]
+    name = "::".join([tr.cpp_ns(t)] + list(t.name.canonical_name.object_path[:-1])
+                     + ["Make%sView" % t.name.canonical_name.object_path[-1]])
+    writes = []
+    _scalar_paths(tr, t, "v", 0, writes)
+    L = [head,
+         "template <class T> struct is_bool_t { static const bool value = false; };",
+         "template <> struct is_bool_t<bool> { static const bool value = true; };",
+         "static volatile long long sink = 0;",
+         "template <class F> void try_writes(F f) {",
+         "  typedef typename ::std::decay<decltype(::std::declval<F>().Read())>::type VT;",
+         "  (void)f.Ok();",
+         "  const long long vals[] = {0, 1, 2, 9, 10, 127, 128, 255, 256, 1000, 65535, 65536, -1, -128, -129, 2147483647LL, -2147483647LL - 1, 4294967295LL};",
+         "  for (long long x : vals) { VT y = static_cast<VT>(x); bool c = f.CouldWriteValue(y); bool w = f.TryToWrite(y); sink += c + w; if (f.Ok()) sink += static_cast<long long>(f.Read()); }",
+         "}",
+         "template <class F> void try_writes_small(F f) {   // virtual fields: arguments inside the int32 range of the transform (finding F8 is probed separately)",
+         "  typedef typename ::std::decay<decltype(::std::declval<F>().Read())>::type VT;",
+         "  const long long vals[] = {0, 1, 2, 9, 10, 127, 128, 255, 256, 1000, -1, -100};",
+         "  for (long long x : vals) { VT y = static_cast<VT>(x); bool c = f.CouldWriteValue(y); bool w = f.TryToWrite(y); sink += c + w; if (f.Ok()) sink += static_cast<long long>(f.Read()); }",
+         "}",
+         "static void mark(const char *what, int b) { ::std::printf(\"@ buffer=%d op=%s\\n\", b, what); ::std::fflush(stdout); }",
+         "int main() {"]
+    for bi, b in enumerate(buffers):
+        arr = ", ".join(str(x) for x in b)
+        L.append("  { static const unsigned char init[] = {%s0}; const ::std::size_t n = %d;" % (arr + (", " if arr else ""), len(b)))
+        L.append("    unsigned char *buf = static_cast<unsigned char *>(::std::malloc(n ? n : 1)); ::std::memcpy(buf, init, n);")
+        L.append("    unsigned char *buf2 = static_cast<unsigned char *>(::std::malloc(n ? n : 1)); ::std::memcpy(buf2, init, n);")
+        L.append("    auto v = %s(buf, n); auto w = %s(buf2, n);" % (name, name))
+        L.append('    mark("observe", %d); ::std::printf("B%d"); out(v.Ok() ? 1 : 0); dump_T%d(v); ::std::printf("\\n");' % (bi, bi, top_index))
+        L.append('    mark("text", %d); { ::std::string t1 = ::emboss::WriteToString(v, ::emboss::TextOutputOptions().WithAllowPartialOutput(true));' % bi)
+        L.append('      ::std::string t2 = ::emboss::WriteToString(v, ::emboss::TextOutputOptions().WithAllowPartialOutput(true).Multiline(true).WithComments(true).WithDigitGrouping(true).WithNumericBase(16));')
+        L.append('      mark("update_from_text", %d); sink += ::emboss::UpdateFromText(w, t1); sink += ::emboss::UpdateFromText(w, t2); sink += ::emboss::UpdateFromText(w, "{ bogus: 1 }"); sink += ::emboss::UpdateFromText(w, "{"); }' % bi)
+        L.append('    mark("copy_equals", %d); sink += w.TryToCopyFrom(v); if (v.Ok() && w.Ok()) { sink += v.Equals(w); sink += w.Equals(v); }' % bi)
+        L.append('    mark("writes", %d); %s' % (bi, " ".join(writes)))
+        L.append('    mark("observe_after_writes", %d); ::std::printf("A%d"); out(v.Ok() ? 1 : 0); dump_T%d(v); ::std::printf("\\n");' % (bi, bi, top_index))
+        L.append("    ::std::free(buf); ::std::free(buf2); }")
+    L.append('  ::std::printf("DONE\\n"); return 0; }')
+    return "\n".join(L) + "\n"
